@@ -9,7 +9,7 @@
     order ([perm_oracle sh]). *)
 From Coq Require Import List NArith ZArith Bool Arith Permutation.
 From Verif Require Import Dag.Model Dag.Facts Dag.KahnProofs Dag.PushProofs Dag.LayoutProofs Dag.Summary
-     Dag.Ops Dag.OpsProofs Gen.DagsSrc Dag.DagGen Dag.CircleLegacy.
+     Dag.Ops Dag.OpsProofs Dag.RevLayout Gen.DagsSrc Dag.DagGen Dag.CircleLegacy.
 Import ListNotations.
 
 (** The checker accepts exactly the graphs all of whose edge targets are
@@ -362,3 +362,23 @@ Example ex_remove_subgraph :
   g_remove ex_ops_graph 1 = [(0, [3]); (2, [3]); (3, []); (4, [])]%N /\
   g_subgraph (fun k => negb (N.eqb k 2)) ex_ops_graph = [(0, [1; 3]); (1, []); (3, []); (4, [])]%N.
 Proof. vm_compute. split; reflexivity. Qed.
+
+(** RevLayout (lay the reversed graph out, mirror the view): for every
+    accepted graph it returns a view in which every node lies inside
+    width x height, no two nodes share a coordinate and every edge of the
+    graph ITSELF goes strictly left to right. *)
+Theorem C19_rev_layout : forall sh, perm_oracle sh -> forall g, wf g ->
+  targets_exist g -> acyclic g ->
+  exists v, rev_layout gen_params sh g = Some v /\
+    (forall k, In k (keys g) -> (vx v k < v_width v)%nat /\ (0 <= vy v k < v_height v)%Z) /\
+    (forall a b, In a (keys g) -> In b (keys g) -> a <> b -> (vx v a, vy v a) <> (vx v b, vy v b)) /\
+    (forall u w, edge g u w -> (vx v u < vx v w)%nat).
+Proof. exact (rev_layout_ok gen_params gen_params_ok). Qed.
+Print Assumptions C19_rev_layout.
+
+Example ex_rev_layout :
+  match rev_layout gen_params sh_id ex_ops_graph with
+  | Some v => (vx v 0%N < vx v 1%N)%nat /\ (vx v 1%N < vx v 2%N)%nat /\ (vx v 2%N < vx v 3%N)%nat /\ (vx v 0%N < vx v 3%N)%nat
+  | None => False
+  end.
+Proof. vm_compute. repeat split; repeat constructor. Qed.
